@@ -10,12 +10,22 @@ def xmlns : String × String := ("xmlns", "http://www.gnu.org/software/gama/gama
 /-- start, character data, stop of a leaf element -/
 def leaf (n : String) (txt : String) : List Event := [.start n [], .text txt.toList, .stop]
 
-/-- the spine up to `<cov-mat>`: `state == s_cov_mat` -/
-def toCovMat : List Event :=
+/-- the spine up to `<cov-mat>` with the given content of `<adjusted>`: `state == s_cov_mat` -/
+def spine (adjusted : List Event) : List Event :=
   [.start "gama-local-adjustment" [xmlns], .start "description" [], .stop,
    .start "network-general-parameters" [("epoch", "0")], .stop,
    .start "network-processing-summary" [], .stop, .start "coordinates" [],
-   .start "fixed" [], .stop, .start "approximate" [], .stop, .start "adjusted" [], .stop,
-   .start "orientation-shifts" [], .stop, .start "cov-mat" []]
+   .start "fixed" [], .stop, .start "approximate" [], .stop, .start "adjusted" []] ++ adjusted ++
+  [.stop, .start "orientation-shifts" [], .stop, .start "cov-mat" []]
+
+/-- one adjusted point with x, y and z: three adjustment indexes (14 events) -/
+def pointXYZ : List Event :=
+  [.start "point" []] ++ leaf "id" "A" ++ leaf "x" "1" ++ leaf "y" "2" ++ leaf "z" "3" ++ [.stop]
+
+/-- the spine with three adjusted unknowns announced before `<cov-mat>` -/
+def toCovMat : List Event := spine pointXYZ
+
+/-- the spine without any adjusted point: every `<cov-mat>` with `dim ≥ 1` is refused (fix 3e87ff8) -/
+def toCovMatNoPoints : List Event := spine []
 
 end Gama.AdjRes.Ex
